@@ -24,7 +24,7 @@ type Op struct {
 	Sel    int    // S: k-th newest job ever sent to Cid (0 = newest); -1 = an id nobody was given; -2 = newest job of another miner
 	Nonce  string // S: hex text of the nonce field (with Mine: where the search for a nonce starts)
 	Extra  string // S: hex text of nonce_extra ("" = absent)
-	Merge  string // S: shape of the merge-mining blob: "", "own", "own+f", "f+own", "garbage", "ownown", "empty"
+	Merge  string // S: shape of the merge-mining blob: "", "own", "own+f", "f+own", "garbage", "ownown", "empty", "own+15f", "own+16f"
 	ExtraB []byte
 	// S: which job, when the order in which overlapping broadcasts reached the connection is not known to the script:
 	// "" = Sel; "low" / "high" = the job of the lowest / highest height among the jobs the server still holds for Cid
@@ -324,7 +324,9 @@ func (r *Run) blobTime(ts string, sent block.MiningBlob, tpl *tplInfo) (uint64, 
 }
 
 // mergeBlob builds the merge-mining blob a masterchain node would submit for the job whose sent blob is `sent`.
-func (r *Run) mergeBlob(shape string, sent block.MiningBlob, salt byte, ts string, tpl *tplInfo) ([]byte, error) {
+// The second result is the blob as constructed (nil when the bytes are not a blob by construction: garbage, or more
+// chains than MAX_MERGE_MINED_CHAINS): what the model is told does not depend on the decoder under test.
+func (r *Run) mergeBlob(shape string, sent block.MiningBlob, salt byte, ts string, tpl *tplInfo) ([]byte, *block.MiningBlob, error) {
 	own := block.HashingID{NetworkID: config.NETWORK_ID}
 	for _, c := range sent.Chains {
 		if c.NetworkID == config.NETWORK_ID {
@@ -339,7 +341,7 @@ func (r *Run) mergeBlob(shape string, sent block.MiningBlob, salt byte, ts strin
 	if ts != "" {
 		t, err := r.blobTime(ts, sent, tpl)
 		if err != nil {
-			return nil, err
+			return nil, nil, err
 		}
 		mb.Timestamp = t
 	}
@@ -353,10 +355,25 @@ func (r *Run) mergeBlob(shape string, sent block.MiningBlob, salt byte, ts strin
 		mb.Chains = []block.HashingID{lo, own}
 	case "ownown":
 		mb.Chains = []block.HashingID{own, own}
+	case "own+15f", "own+16f":
+		// the largest chain list a blob may carry (this chain and MAX_MERGE_MINED_CHAINS-1 others), and one more
+		n := config.MAX_MERGE_MINED_CHAINS - 1
+		if shape == "own+16f" {
+			n++
+		}
+		mb.Chains = []block.HashingID{own}
+		for i := 0; i < n; i++ {
+			h := fh
+			h[2] = byte(i)
+			mb.Chains = append(mb.Chains, block.HashingID{NetworkID: config.NETWORK_ID + 7 + uint64(i), Hash: h})
+		}
 	case "garbage":
-		return []byte{1, 2, 3, salt}, nil
+		return []byte{1, 2, 3, salt}, nil, nil
 	}
-	return mb.Serialize(), nil
+	if len(mb.Chains) == 0 || len(mb.Chains) > config.MAX_MERGE_MINED_CHAINS {
+		return mb.Serialize(), nil, nil
+	}
+	return mb.Serialize(), &mb, nil
 }
 
 func classifyError(msg string) string {
@@ -458,9 +475,10 @@ func (r *Run) submit(op Op) error {
 		params["nonce_extra"] = op.Extra
 	}
 	var mergeRaw []byte
+	var mergeBuilt *block.MiningBlob
 	if op.Merge != "" {
 		var err error
-		mergeRaw, err = r.mergeBlob(op.Merge, sentMb, byte(len(r.steps)+1), op.Ts, w.classInfo(jobTpl))
+		mergeRaw, mergeBuilt, err = r.mergeBlob(op.Merge, sentMb, byte(len(r.steps)+1), op.Ts, w.classInfo(jobTpl))
 		if err != nil {
 			return err
 		}
@@ -470,9 +488,10 @@ func (r *Run) submit(op Op) error {
 	mergeTerm := "MNone"
 	var mergeMb block.MiningBlob
 	if len(mergeRaw) > 0 {
-		if err := mergeMb.Deserialize(mergeRaw); err != nil {
+		if mergeBuilt == nil {
 			mergeTerm = "MBad"
 		} else {
+			mergeMb = *mergeBuilt
 			mergeTerm = "(MBlob " + w.blobTerm(mergeMb) + ")"
 		}
 	}
